@@ -1,9 +1,9 @@
 SPECIFICATION Spec
 CONSTANTS
- Sizes = {7, 8}
- Caps = {3}
+ Sizes = {12}
+ Caps = {4}
  Codes <- OneCode
- MaxOps = 100
+ MaxOps = 8
 INVARIANT TextOrNothing
 INVARIANT NoOverlap
 INVARIANT InBounds
@@ -12,4 +12,6 @@ INVARIANT NoLeak
 INVARIANT Contiguous
 INVARIANT QueueBounded
 PROPERTY Refines
+VIEW View
 CHECK_DEADLOCK FALSE
+CONSTRAINT DepthBound
